@@ -5,6 +5,8 @@ CONSTANTS
   Drawings = 1
   Kinds = {"tri"}
   MutSeq <- MutDraw
+  Modes = {"any", "inside", "around", "apart", "same"}
+  MaxSegs = 26
   Styles = {"long", "short", "mixed", "mid"}
   Theorems = FALSE
 INVARIANTS WaysWellFormed SegBagConserved VerdictIsOfTheWays
